@@ -132,7 +132,9 @@ static OCase gen_case() {
       // edge hugging on formats with specialised fetchers
       if (coin(70)) s.bits.fmt = fmt_index(pick<pixman_format_code_t>({PIXMAN_a8r8g8b8, PIXMAN_x8r8g8b8, PIXMAN_r5g6b5, PIXMAN_a8}));
       if (is_yuv(s.bits.code())) break;
-      s.bits.w = coin(30) ? (int)R(1, 3) : (int)R(1, 40);
+      // (sources of 64 pixels and more are read in place by the repeating scaled fast paths; narrower ones are first
+      // replicated into a scratch row)
+      s.bits.w = coin(30) ? (int)R(1, 3) : coin(25) ? (int)R(64, 140) : (int)R(1, 40);
       s.bits.h = coin(30) ? (int)R(1, 3) : (int)R(1, 8);
       edge_hug(s, x0, y0, sc.w, sc.h);
       s.filter = pickw({5, 6, 1, 2, 1, 1, 1});
